@@ -294,6 +294,7 @@ def handleGen (t : List String) : List String :=
         match p.makemove m true with
         | some q => (legalMoves q).isEmpty && q.inCheck
         | none => false).map showPos
+  | ["gsmall", wk] => (GenPos.smallBlock (nat! wk)).map showPos
   | ["gmateu", seed, n] => (GenPos.underPromoMates (nat! n) (GenPos.Rng.mk' (nat! seed))).map showPos
   | ["gpattern", seed, kind, n, frc] =>
     (GenPos.patterns (nat! kind) (nat! n) (GenPos.Rng.mk' (nat! seed)) (b01 frc)).map showPos
